@@ -96,6 +96,7 @@ func genScenario(prop string, rng *rand.Rand) *Scenario {
 		sc.FailAt = 1 + rng.Intn(2)
 		if prop == "C07" {
 			closers = 0
+			sc.Consume = rng.Intn(2) == 0
 		}
 	}
 	if (prop == "C01" || prop == "C02" || prop == "C06") && sc.FailAt == 0 && rng.Intn(4) == 0 {
@@ -106,20 +107,32 @@ func genScenario(prop string, rng *rand.Rand) *Scenario {
 		}
 	}
 	// 1/12 of the queued scenarios carry payloads of 33000 bytes: two of them exceed every 64 KiB threshold
-	sc.Big = (prop == "C01" || prop == "C02" || prop == "C06" || prop == "C10") && !sc.Sync && rng.Intn(12) == 0
+	sc.Big = (prop == "C01" || prop == "C02" || prop == "C06" || prop == "C10") && !sc.Sync && rng.Intn(8) == 0
 	if prop == "C10" && rng.Intn(3) == 0 {
 		cancellers = 1 // a caller context cancelled while its write is in progress
 	}
 	sc.NCtx = cancellers
+	bigSize := 33000
+	if sc.Big && rng.Intn(3) == 0 {
+		bigSize = 140000 // two of them exceed 256 KiB
+	}
+	// 1/15: a long burst from one writer into a small queue (the sender goes many rounds without finding the queue empty)
+	burst := (prop == "C01" || prop == "C02" || prop == "C06") && !sc.Sync && !sc.Big && sc.FailAt == 0 && rng.Intn(15) == 0
+	if burst {
+		sc.Qcap, sc.Until = 1+rng.Intn(2), true
+	}
 	nw := 1 + rng.Intn(3)
 	for w := 0; w < nw; w++ {
 		th := Thread{Name: fmt.Sprintf("W%d", w+1)}
 		nops := 1 + rng.Intn(3)
+		if burst && w == 0 {
+			nops = 18 + rng.Intn(8)
+		}
 		for i := 0; i < nops; i++ {
 			op := genWriteOp(rng, sc.NCtx, prop != "C01" || rng.Intn(3) == 0)
 			if sc.Big && len(op.Bufs) > 0 && rng.Intn(2) == 0 {
 				for j := range op.Bufs {
-					op.Bufs[j] = payload(rng, 33000)
+					op.Bufs[j] = payload(rng, bigSize)
 				}
 			}
 			if prop == "C10" && sc.NCtx > 0 && (op.Kind == "cw1" || op.Kind == "cwv") && rng.Intn(3) != 0 {
